@@ -90,9 +90,10 @@ def variants(c, rng, idx, quick):
     s1 = rng.choice([2, 3, 7, 1000, rng.randrange(2, 50000)])
     perm = list(range(k))
     rng.shuffle(perm)
-    out.append({"sizes": [sizes[p] * s1 for p in perm], "rows": [rows[p] for p in perm], "n": n, "arr": 1 + idx % 3,
+    if not quick or idx % 2 == 1:
+      out.append({"sizes": [sizes[p] * s1 for p in perm], "rows": [rows[p] for p in perm], "n": n, "arr": 1 + idx % 3,
                 "opt": opt * s1, "chk": 0, "mowner": [], "scale": s1, "fam": c["fam"]})
-    if idx % (2 if quick else 1) == 0:
+    if idx % (3 if quick else 1) == 0:
         s2 = rng.randrange(1 << 20, 1 << 37)
         out.append({"sizes": [x * s2 for x in sizes], "rows": rows, "n": n, "arr": 0, "opt": opt * s2, "chk": 0,
                     "mowner": c["owner"], "scale": s2, "fam": c["fam"]})
@@ -109,6 +110,19 @@ def random_instances(rng, count, maxk, maxn):
         sizes = [rng.choice(pal) * f + (rng.randrange(0, 3) if rng.random() < 0.3 else 0) for _ in range(k)]
         out.append({"sizes": sizes, "rows": [rng.randrange(1, 1000) for _ in range(k)], "n": n, "arr": rng.randrange(0, 4),
                     "opt": -1, "chk": 1, "mowner": [], "scale": 1, "fam": "random"})
+    return out
+
+
+def large_instances(rng, count):
+    """Many splits on up to 64 nodes: the optimum is out of reach, so only partition / sums / determinism are judged."""
+    out = []
+    for _ in range(count):
+        k = rng.randrange(10, 120)
+        n = rng.choice([2, 3, 5, 8, 13, 16, 32, 63, 64])
+        pal = [rng.randrange(0, 1000) for _ in range(rng.randrange(2, 6))] + [0]
+        sizes = [rng.choice(pal) if rng.random() < 0.7 else rng.randrange(0, 1000) for _ in range(k)]
+        out.append({"sizes": sizes, "rows": [rng.randrange(1, 5000) for _ in range(k)], "n": n, "arr": rng.randrange(0, 4),
+                    "opt": -2, "chk": 0, "mowner": [], "scale": 1, "fam": "large"})
     return out
 
 
@@ -152,6 +166,7 @@ def check_records(ctx, r1, r2, name):
             ctx.violation({k: r[k] for k in ("sizes", "rows", "n", "arr", "opt", "chk", "mowner", "scale", "fam")}, why)
             n_viol += 1
     ctx.add("records_judged_by_tlc", len(fit))
+    ctx.add("traces_validated_against_impl", len(fit) - len(rej))
     ctx.add("records_judged_by_exact_integers_only", len(r1) - len(fit))
     return n_viol
 
@@ -186,6 +201,7 @@ def run(ctx):
     for i, c in enumerate(cases):
         recs += variants(c, rng, i, quick)
     recs += random_instances(rng, 150 if quick else 600, 6 if quick else 7, 3 if quick else 4)
+    recs += large_instances(rng, 100 if quick else 1000)
     r1, r2 = replay_real(ctx, recs, "lpt")
     check_records(ctx, r1, r2, "trace")
     # evidence
@@ -216,7 +232,6 @@ def run(ctx):
     for k2, v in feats.items():
         if v == 0:
             raise vlib.ToolError(f"no replayed instance exercised {k2}")
-    ctx.set("traces_validated_against_impl", ctx.cov.get("records_judged_by_tlc", 0))
     for r in (r1[7], r1[len(r1) // 3], r1[-1]):
         ctx.sample({k: r[k] for k in ("sizes", "rows", "n", "arr", "opt", "per_node", "node_bytes", "node_rows", "idle", "det")})
     tight = next((r for r in r1 if r["opt"] > 0 and 3 * r["n"] * max(r["node_bytes"]) == (4 * r["n"] - 1) * r["opt"]), None)
@@ -226,7 +241,8 @@ def run(ctx):
     ctx.set("rule", "TLC (Lpt.tla) runs the greedy step machine on EVERY multiset of split sizes 0..5 with <=6 (quick) / <=7 (thorough) splits and "
             "N<=3 / N<=4, computing the optimum by enumerating all assignments, plus clusters of 5..64 nodes with fewer splits than nodes. Every instance "
             "is replayed on the real assign_lpt as is, permuted+scaled with other canonical-key arrangements (reverse order, all keys equal, several files), "
-            "and scaled to ~2^40 bytes; random instances with ties are added with the optimum enumerated by the trace spec. Each call is repeated on the "
+            "and scaled to ~2^40 bytes; random instances with ties are added with the optimum enumerated by the trace spec, and instances of 10..120 splits "
+            "on up to 64 nodes for which only partition / sums / determinism are judged. Each call is repeated on the "
             "same set, a deep copy and from 4 threads, and the whole replay is run in two processes. distinct_nontrivial = distinct (multiset of sizes, N) "
             "with >=2 splits, >=2 nodes and >=2 non-zero sizes.")
     ctx.assumptions += ["records whose numbers exceed TLC's 32-bit integers (scale ~2^20..2^37) are judged by an exact-integer restatement of the same "
